@@ -594,6 +594,47 @@ def handleAddChop (args : List String) : Option String :=
         | .error (e, rel) => some s!"err {e.show} at:{showOpt Rel.name rel}"
   | _ => none
 
+def parseRelName (s : String) : Option Rel :=
+  match s.splitOn "<" with
+  | [o, ins] =>
+      match ins.splitOn "+" with
+      | [a, b] => do some ⟨← Q.ofString? o, ← Q.ofString? a, ← Q.ofString? b⟩
+      | _ => none
+  | _ => none
+
+def Vals.set (v : Vals) (q : Q) (x : Rat) : Option Vals :=
+  match q with
+  | .count => if x.den = 1 ∧ 0 ≤ x.num then some { v with count := some x.num.toNat } else none
+  | .start => some { v with start := some x }
+  | .end_ => some { v with end_ := some x }
+  | .c2c => some { v with c2c := some x }
+  | .total => some { v with total := some x }
+
+def Vals.get (v : Vals) : Q → Option Rat
+  | .count => v.count.map (fun n => (n : Rat))
+  | .start => v.start
+  | .end_ => v.end_
+  | .c2c => v.c2c
+  | .total => v.total
+
+/-- `c03.rel out<in1+in2 L a b oracle tol`: one direct call of a relation function (must be in the generated table) -/
+def handleRel (args : List String) : Option String :=
+  match args with
+  | [name, l, a, b, orc, tol] => do
+      let rel ← parseRelName name
+      let rels ← relTable
+      if rel ∉ rels then none
+      let L ← parseRat? l
+      let a ← parseRat? a
+      let b ← parseRat? b
+      let o ← parseOracle orc
+      let t ← parseTol tol
+      let v ← (Vals.set {} rel.in1 a).bind (fun v => v.set rel.in2 b)
+      match applyRel t L o v rel with
+      | .ok v' => (v'.get rel.out).map (fun x => "ok " ++ showRat x)
+      | .error e => some ("err " ++ e.show)
+  | _ => none
+
 /-- `c03.count s r L` → the exact count `searchCount` (first cell `s`, ratio `r`, length `L`) -/
 def handleCount (args : List String) : Option String :=
   match args with
@@ -615,6 +656,7 @@ def handle (op : String) (args : List String) : Option String :=
   | "c03.ginv" => handleGinv args
   | "c03.addchop" => handleAddChop args
   | "c03.count" => handleCount args
+  | "c03.rel" => handleRel args
   | _ => none
 
 end CBV.C03
